@@ -261,6 +261,70 @@ def walk_family_oracle(ctx, p, o, i):
                 return
 
 
+PLURAL_FORMS_BY_LOCALE = {"en": ["one", "other"], "fr": ["one", "many", "other"], "ru": ["one", "few", "many", "other"],
+                          "pl": ["one", "few", "many", "other"], "ja": ["one", "other"], "ar": ["zero", "one", "two", "few", "many", "other"]}
+
+
+def plural_fallback_family(rng, n):
+    """a plural `files` written in the default locale and only in some of the others; every locale refers to it with literal
+    counts.  The forms come from the effective locale of `files`, the *category* of the literal count from the plural rules of the
+    locale the reference is rendered in (what `td_string!(locale, files, count = c)` does at run time)."""
+    out = []
+    for _ in range(n):
+        others = rng.sample(["fr", "ru", "pl", "ja", "ar"], rng.range(2, 3))
+        locs = ["en"] + others
+        inherits = {}
+        if rng.chance(2, 3):
+            inherits[others[1]] = others[0]
+        if len(others) > 2 and rng.chance(1, 2):
+            inherits[others[2]] = rng.pick(others[:2])
+        counts = rng.sample([0, 1, 2, 3, 5, 11, 21, 100], 4)
+        files, written = {}, {}
+        for l in locs:
+            pairs = []
+            if l == "en" or rng.chance(1, 3):
+                written[l] = PLURAL_FORMS_BY_LOCALE[l]
+                for f in written[l]:
+                    pairs.append((f"files_{f}", f"[{l}] {f} {{{{ count }}}}"))
+            elif rng.chance(1, 4):
+                pairs.append(("files", None))
+            for c in counts:
+                pairs.append((f"nf{c}", f"$t(files, {{\"count\": {c}}})."))
+            files[(None, l)] = proj.O(rng.shuffle(pairs))
+        out.append({"default": "en", "locales": locs, "all_locales": locs, "namespaces": None, "inherits": inherits, "files": files,
+                    "extra_cfg": False, "meta": {}, "plural_family": {"written": written, "counts": counts}})
+    return out
+
+
+def plural_fallback_oracle(ctx, p, o, i):
+    fam = p["plural_family"]
+    ctx.seen(project_text(p), nontrivial=len(fam["written"]) < len(p["locales"]))
+    if "ok" not in o["ci"]:
+        report_violation(ctx, "foreign:resolvable-reference-rejected", {"case": project_text(p), "implementation": o["impl"]["result"]})
+        return
+    ns_out = o["impl"]["result"]["ok"]["nss"][0]
+    cats = {(l, r, k): f for l, r, k, f in o["impl"]["oracle"]["cat"]}
+    for l in p["locales"]:
+        src = walk(p["inherits"], "en", lambda x: x in fam["written"], l)
+        if src != l:
+            ctx.count("plural-target-from-other-locale")
+        for c in fam["counts"]:
+            cat = cats.get((l, "cardinal", f"u:{c}"))
+            if cat is None:
+                raise HarnessError("no plural category for %s %s" % (l, c))
+            form = cat if cat in fam["written"][src] else "other"
+            exp = f"[{src}] {form} {c}."
+            v = locale_value_at(ns_out, l, (f"nf{c}",))
+            got = pv_eval(Env(), v) if v is not None else None
+            if cat != (cats.get((src, "cardinal", f"u:{c}"))):
+                ctx.count("category-differs-between-locales")
+            if got != exp:
+                report_violation(ctx, "foreign:literal-count-category-not-of-rendering-locale", {
+                    "case": project_text(p), "locale": l, "key": f"nf{c}", "forms_taken_from": src, "category_in_rendering_locale": cat,
+                    "expected_by_spec": exp, "implementation": got, "harness": "parser_h pipeline + denotation"})
+                return
+
+
 def subkey_target_projects():
     out = []
     for ref in ("$t(g)", "$t(g, {\"x\": \"1\"})", "pre $t( g ) post", "$t(g.inner)"):
@@ -399,6 +463,7 @@ def run(ctx):
         generic_pipeline_check(ctx, [("I18nVerif.Theorems.C06", "C06_"), ("I18nVerif.Theorems.C06Order", "C06_")], projects, make_oracle(binp), "C06")
         generic_pipeline_check(ctx, [], fallback_witnesses(), witness_oracle, "C06-fallback-witnesses")
         generic_pipeline_check(ctx, [], walk_family(rng, ctx.budget(600, 20000)), walk_family_oracle, "C06-fallback-walk")
+        generic_pipeline_check(ctx, [], plural_fallback_family(rng, ctx.budget(200, 5000)), plural_fallback_oracle, "C06-plural-fallback")
         generic_pipeline_check(ctx, [], subkey_target_projects(), subkey_oracle, "C06-subkey-targets")
         more = [proj.gen_project(rng, {"fk": True}) for _ in range(ctx.budget(300, 6000))]
         generic_pipeline_check(ctx, [], more, lambda c, p, o, i: None, "C06-generated")
